@@ -376,8 +376,23 @@ static Json execCase(const Json &plan, double timeoutS, bool trace) {
     };
     cmp(a, b, "solo-vs-world");
     cmp(b, c, "world-vs-otherheap");
+    // variant D: the statement itself -- the same calls a second time in the SAME process, after everything else the world
+    // did (static caches, counters and generators that outlive an object show up here and nowhere else)
+    {
+        Json pd = plan;
+        Json ss = plan["sessions"];
+        ss.push(plan["sessions"][(size_t)sj]);
+        pd.set("sessions", ss);
+        pd.set("subject2", (long)ss.size() - 1);
+        Json d = execPlan(pd, timeoutS, false);
+        if (d.str("status", "") == "ok" && d.has("obs") && d.has("obs2")) {
+            Json x = Json::obj(); x.set("status", "ok"); x.set("obs", d["obs"]); x.set("obs_exact", d["obs_exact"]);
+            Json y = Json::obj(); y.set("status", "ok"); y.set("obs", d["obs2"]);
+            cmp(x, y, "first-vs-second-time-in-one-process");
+        }
+    }
     res.set("violations", v);
-    res.set("variants", 3);
+    res.set("variants", 4);
     if (a.str("status", "") != "ok") res.set("status", "solo:" + a.str("status", ""));
     return res;
 }
